@@ -394,6 +394,31 @@ class TriInterp:
                                     "int" else INT
                     res.append(q)
             return self._dedup(res)
+        if isinstance(s, ast.While) and not s.orelse:
+            # like For: no iteration, or one abstract iteration after which
+            # everything the loop assigns is unknown
+            res = []
+            for (p, t) in self.truth(s.test, path, owner, outs):
+                if t is not True:
+                    res.append(p.fork())
+                if t is False:
+                    continue
+                p2 = p.fork()
+                for n in ast.walk(s):
+                    if isinstance(n, ast.Name) and isinstance(
+                            n.ctx, ast.Store) and n.id in p2.env and \
+                            p2.env[n.id].kind not in ("list",):
+                        p2.env[n.id] = UNK if p2.env[n.id].kind not in (
+                            "int", "byte") else INT
+                for q in self.exec_block(s.body, [p2], owner, outs):
+                    for n in ast.walk(s):
+                        if isinstance(n, ast.Name) and isinstance(
+                                n.ctx, ast.Store) and n.id in q.env:
+                            if q.env[n.id].kind not in ("list",):
+                                q.env[n.id] = UNK if q.env[n.id].kind != \
+                                    "int" else INT
+                    res.append(q)
+            return self._dedup(res)
         if isinstance(s, ast.Try):
             inner = []
             falls = self.exec_block(s.body, [path], owner, inner)
